@@ -140,7 +140,38 @@ func dumpRoutes() {
 		fmt.Fprintf(&sb, "  ⟨%s, %s, %v, %v⟩%s\n", leanStr(f.name), leanStr(f.prefix), f.useBefore, f.authInUse, sep)
 	}
 	sb.WriteString("]\n\n")
-	fmt.Fprintf(&sb, "/-- route registrations made directly on the engine inside newRouter -/\ndef bareRegistrations : Nat := %d\n\nend Chf.Gen\n", bare)
+	fmt.Fprintf(&sb, "/-- route registrations made directly on the engine inside newRouter -/\ndef bareRegistrations : Nat := %d\n\n", bare)
+	// control-flow paths of the middleware and of the decision function
+	cps, err := checkPathsOf(filepath.Join(repoRoot(), "internal", "util", "router_auth_check.go"))
+	if err != nil {
+		fmt.Fprintln(os.Stderr, "ast:", err)
+		os.Exit(1)
+	}
+	sb.WriteString("/-- every control-flow path of util.RouterAuthorizationCheck.Check (go/ast), in source order -/\n")
+	sb.WriteString("def checkPaths : List (List Ev) := [\n")
+	for i, p := range cps {
+		sep := ","
+		if i == len(cps)-1 {
+			sep = ""
+		}
+		fmt.Fprintf(&sb, "  %s%s\n", leanList(p.evs), sep)
+	}
+	sb.WriteString("]\n\n")
+	aps, err := authPathsOf(filepath.Join(repoRoot(), "internal", "context", "context.go"))
+	if err != nil {
+		fmt.Fprintln(os.Stderr, "ast:", err)
+		os.Exit(1)
+	}
+	sb.WriteString("/-- every control-flow path of CHFContext.AuthorizationCheck (go/ast) with what it returns -/\n")
+	sb.WriteString("def authPaths : List APath := [\n")
+	for i, p := range aps {
+		sep := ","
+		if i == len(aps)-1 {
+			sep = ""
+		}
+		fmt.Fprintf(&sb, "  ⟨%s, %s⟩%s\n", leanList(p.evs), p.ret, sep)
+	}
+	sb.WriteString("]\n\nend Chf.Gen\n")
 	fmt.Print(sb.String())
 }
 
@@ -322,6 +353,9 @@ func mkToken(kind string) string {
 	claims := jwt.MapClaims{"iss": "nrf", "sub": "smf", "aud": "CHF", "scope": "nchf-convergedcharging nchf-offlineonlycharging nchf-spendinglimitcontrol",
 		"exp": time.Now().Add(time.Hour).Unix()}
 	kind = strings.TrimSuffix(kind, "+nocert")
+	if kind == "valid" || strings.HasPrefix(kind, "v-") {
+		return nearMissToken(kind, claims)
+	}
 	switch kind {
 	case "none":
 		return ""
@@ -349,10 +383,6 @@ func mkToken(kind string) string {
 		t := jwt.NewWithClaims(jwt.SigningMethodRS512, claims)
 		s, _ := t.SignedString(otherKey)
 		return "Bearer " + s
-	case "valid":
-		t := jwt.NewWithClaims(jwt.SigningMethodRS512, claims)
-		s, _ := t.SignedString(nrfKey)
-		return "Bearer " + s
 	}
 	return ""
 }
@@ -377,14 +407,22 @@ func genAuth(o genOpts, w *bufio.Writer) {
 		// paths that are not registered at all must not reach a handler either
 		fmt.Fprintf(w, "auth probe %s GET %s none\n", name, hexOf([]byte("/")))
 		fmt.Fprintf(w, "auth probe %s POST %s none\n", name, hexOf([]byte("/chargingdata")))
+		genAuthHistories(o, w, name, facts)
 	}
 }
 
 var authRouters = map[string]*gin.Engine{}
 
 func runAuth(line string, t []string) string {
-	if len(t) != 5 || t[0] != "probe" {
+	if len(t) == 1 && t[0] == "end" {
+		return authEnd()
+	}
+	if (len(t) != 5 && len(t) != 6) || t[0] != "probe" {
 		return "bad-op"
+	}
+	reqCtx := "live"
+	if len(t) == 6 {
+		reqCtx = t[5]
 	}
 	setupNrfCert()
 	eng, ok := authRouters[t[1]]
@@ -407,28 +445,38 @@ func runAuth(line string, t []string) string {
 	}
 	pb, _ := unhex(t[3])
 	path := string(pb)
+	supi := authSupi()
 	// instantiate path parameters
 	parts := strings.Split(path, "/")
 	for i, p := range parts {
 		if strings.HasPrefix(p, ":") {
-			parts[i] = "imsi-208930000000009_1"
+			parts[i] = supi + "_1"
 		}
 	}
 	path = strings.Join(parts, "/")
 	body, _ := json.Marshal(map[string]interface{}{
-		"subscriberIdentifier":     "imsi-208930000000009",
+		"subscriberIdentifier":     supi,
 		"nfConsumerIdentification": map[string]interface{}{"nFName": "smf", "nodeFunctionality": "SMF"},
 		"invocationSequenceNumber": 1, "invocationTimeStamp": time.Now().Format(time.RFC3339),
 	})
-	before := poolSize()
+	tok := mkToken(t[4])
+	if tok == "" && t[4] != "none" && t[4] != "none+nocert" {
+		return "n/a" // this near-miss does not exist for the token at hand (or an unknown kind)
+	}
+	before, stBefore := poolSize(), authStateDigest()
 	req := httptest.NewRequest(t[2], path, bytes.NewReader(body))
 	req.Header.Set("Content-Type", "application/json")
-	if tok := mkToken(t[4]); tok != "" {
+	if tok != "" {
 		req.Header.Set("Authorization", tok)
+	}
+	req, done := withRequestContext(req, reqCtx)
+	if req == nil {
+		return "bad-op"
 	}
 	w := httptest.NewRecorder()
 	eng.ServeHTTP(w, req)
-	after := poolSize()
+	done()
+	after, stAfter := poolSize(), authStateDigest()
 	// the answer is exactly one JSON value (a handler running after the rejection appends its own output)
 	one := 0
 	dec := json.NewDecoder(bytes.NewReader(w.Body.Bytes()))
@@ -439,7 +487,11 @@ func runAuth(line string, t []string) string {
 			one = 1
 		}
 	}
-	return fmt.Sprintf("status=%d pool=%d>%d one=%d", w.Code, before, after, one)
+	same := 1
+	if stBefore != stAfter {
+		same = 0
+	}
+	return fmt.Sprintf("status=%d pool=%d>%d one=%d state-same=%d", w.Code, before, after, one, same)
 }
 
 func poolSize() int {
